@@ -1,14 +1,21 @@
 """C12 - applying an estimator is pure, reproducible and independent of scheduling (PARTIAL).
 
-What is proved (coq/C12): an ownership model of apply-type methods (copy-first programs preserve
-every pre-existing buffer, are repeatable and interleavable; in-place variants refuted), a
-small-step pool semantics (ordered collection is schedule-free for pure tasks; shared RNG refuted;
-seeds drawn before dispatch restore it) and a seeded-RNG model of `_get_intervals`.
-What is regenerated: the `Parallel(...)` call-site facts of the anchored files (translator/
-sites_c12.py, fail closed) and proved to satisfy the contract's preconditions (Bridge.v).
+What is proved (coq/C12): an ownership model of methods as programs over local variables that
+refer to buffers (programs the aliasing analysis accepts preserve every pre-existing buffer and
+the estimator, return a result that is a function of the contents of state and data only, hence
+are repeatable and interleavable; in-place / own-parameter variants refuted), a small-step pool
+semantics (ordered collection is schedule-free for pure tasks; shared RNG refuted; seeds drawn
+before dispatch restore it) and a seeded-RNG model of `_get_intervals`.
+What is regenerated on every run, fail closed: (a) the ownership PROGRAMS of HampelFilter.transform,
+Imputer.transform, Detrender / Deseasonalizer fit+transform+inverse_transform+update, BoxCox / Log
+transform, BaseTransformer.fit (translator/own_c12.py -> C12/Own.v; helpers inlined), proved
+accepted for all branch conditions / loop counts / contents in Bridge.v - an in-place write on the
+caller's object or a write to the estimator in transform breaks a proof obligation; (b) the
+`Parallel(...)` call-site facts of the anchored files (translator/sites_c12.py), proved to satisfy
+the contract's preconditions (Bridge.v).
 What is only sampled: real thread interleavings, pickle, BLAS - by the scenario run below, whose
-verdict is the oracle (the Coq side of an estimator case is the ownership model's prediction
-"caller buffers unchanged").
+verdict is the oracle (the Coq side of an estimator case is the regenerated program's prediction:
+caller buffers unchanged, result a new object, parameters unchanged).
 """
 import hashlib
 import struct
@@ -17,7 +24,7 @@ from harness.core import cbool, clist, cz, czlist
 
 ID = "C12"
 MODEL_TARGETS = ["C12/Cases.vo"]
-PROOF_TARGETS = ["C12/Sites.vo", "C12/Bridge.vo", "C12/Proofs.vo", "C12/Refuted.vo"]
+PROOF_TARGETS = ["C12/Sites.vo", "C12/Own.vo", "C12/Proofs.vo", "C12/Bridge.vo", "C12/Refuted.vo"]
 OBLIGATION_FILES = ["C12/Bridge.v", "C12/Refuted.v"]
 PROPS_FILE = "C12/Props.v"
 SHARD = 60
@@ -39,19 +46,27 @@ TRUSTED = [
     "only (generator form, keywords, how the result list is bound, whether an RNG object is shared "
     "with the tasks, whether enclosing draws precede dispatch); joblib's own guarantee that "
     "Parallel returns results in task order is the modelled contract, sampled by the n_jobs runs",
-    "the ownership model's reading of pandas: `Z = f(Z)` for copy/fillna/replace/apply/interpolate "
-    "allocates a new object, `Z[col] = ..` / `Z.iloc[j] = ..` write through the current object",
+    "translator/own_c12.py (Python ast -> ownership programs, fail closed) and its reading of "
+    "pandas / numpy, which is exactly its tables: PURE_METHODS (copy/fillna/replace/apply/"
+    "interpolate/...) return new objects and leave the receiver alone unless `inplace=` is given; "
+    "`Z[col]`, `.iloc`, `.values`, check_series(Z), np.asarray(Z) are (views of) the same object; "
+    "`x[..] = ..`, `x.attr = ..`, `x += ..`, fit/update/set_params and generator draws write through "
+    "x; calls of functions outside the module (other estimators' fit/predict, numpy) do not write "
+    "through their arguments (for estimators that is this property, sampled on them separately); "
+    "`raise` is modelled as carrying on (the model may only do more than the code)",
     "digest comparison of results (sha1 of a canonical bit-exact snapshot, NaN canonicalised)",
 ]
 MODELLED = [
     "real thread interleavings, pickle and BLAS behaviour are NOT modelled: they are sampled by the "
     "correspondence run (threading backend, n_jobs in {None,1,2[,4]}, pickle round trip); the proof "
     "level covers the modelled logic only",
-    "estimator cases: the Coq side is only the ownership model's prediction `caller buffers "
-    "unchanged after every call' (copy-first program instantiated with the observed result); the "
-    "verdict on repeat/interleave/refit/n_jobs/pickle equality is the Python oracle",
-    "ownership programs of HampelFilter.transform / Imputer.transform are hand-written models of "
-    "the source (Model.v), tied by correspondence only",
+    "estimator cases: the Coq side is the ownership program's prediction (caller buffers unchanged "
+    "after every call, result not the argument object, parameters unchanged): the REGENERATED "
+    "program of the function that ran where there is one (series transformers of the anchored "
+    "files), the generic copy-first / fit shape for every other estimator; the verdict on "
+    "repeat/interleave/refit/n_jobs/pickle equality is the Python oracle",
+    "ownership programs exist for the series transformers of TARGETS in translator/own_c12.py only; "
+    "panel transformers, forecasters and classifiers are covered by the generic shape + sampling",
     "forecasters remember the last horizon passed to predict (C20's _set_fh, by design): every "
     "predict call here passes its horizon explicitly",
     "apply-type methods that write scratch attributes on self without changing any later result "
@@ -76,9 +91,25 @@ NOT_RUNNABLE = [
 ]
 
 
+_OWN = {}
+
+
+def _own_meta(repo=None):
+    """metadata of the regenerated ownership programs (names, branch conditions)"""
+    if "ms" not in _OWN:
+        from harness import core
+        from translator import own_c12
+        _OWN["ms"] = own_c12.extract(repo or core.REPO)
+    return _OWN["ms"]
+
+
 def translate(repo):
-    from translator import sites_c12
-    return sites_c12.translate(repo)
+    from translator import own_c12, sites_c12
+    out = dict(sites_c12.translate(repo))
+    _OWN.pop("ms", None)
+    out.update(own_c12.translate(repo))
+    _own_meta(repo)
+    return out
 
 
 # ------------------------------------------------------------------------------------------------
@@ -701,6 +732,27 @@ def _fit(est, fit_args):
         return "%s: %s" % (type(e).__name__, str(e)[:80])
 
 
+def _qual(est, method):
+    """which function runs for est.<method>: `Class.method` of the defining class"""
+    f = getattr(type(est), method, None)
+    return getattr(f, "__qualname__", "?")
+
+
+def _plain_params(est):
+    """constructor parameters as plain data (objects become the marker "<obj>")"""
+    try:
+        p = est.get_params(deep=False)
+    except Exception:  # noqa
+        return {}
+    out = {}
+    for k, v in p.items():
+        if v is None or isinstance(v, (bool, int, float, str)):
+            out[k] = v
+        else:
+            out[k] = "<obj>"
+    return out
+
+
 def _arg_snaps(args):
     return [snap(o) for _, o, _ in args]
 
@@ -731,10 +783,13 @@ def _run_est(case):
     # ---- first instance: fit, first pass with before/after comparison of every argument
     np.random.seed(1234)
     e1 = make(name, seed)
+    out["params"] = _plain_params(e1)
     fit_before = _arg_snaps(fit_args)
     err = _fit(e1, fit_args)
     out["fit"] = {"err": err, "mod": _arg_diff(fit_args, fit_before)}
     own = [[[flat(x) for x in fit_before], [flat(snap(o)) for _, o, _ in fit_args]]]
+    quals = [_qual(e1, "fit")]
+    res_is_arg = [False]
     zt = None
     recs = []
     pristine = []
@@ -746,6 +801,8 @@ def _run_est(case):
         pristine.append(before)
         p0, r0, a0 = params_digest(e1), rng_digest(e1), attr_digests(e1)
         res, s = _invoke(e1, method, args)
+        quals.append(_qual(e1, method))
+        res_is_arg.append(bool(args) and res is not None and res is args[0][1])
         if ci == 0 and res is not None and hasattr(res, "copy"):
             zt = res.copy()
         a1 = attr_digests(e1)
@@ -758,6 +815,8 @@ def _run_est(case):
         recs.append(rec)
         own.append([[flat(x) for x in before], [flat(snap(o)) for _, o, _ in args]])
     out["own"] = own
+    out["quals"] = quals
+    out["res_is_arg"] = res_is_arg
 
     def compare(tag, est, call_list):
         for rec, c in zip(recs, call_list):
@@ -1195,19 +1254,36 @@ Import ListNotations.
 Open Scope Z_scope.
 """
 
-IMETHOD = {"drift": "MDrift", "linear": "MInterp", "nearest": "MInterp", "constant": "MConstant",
-           "mean": "MMean", "sentinel": "MMean", "median": "MMedian", "bfill": "MFill",
-           "ffill": "MFill", "random": "MRandom", "forecaster": "MForecaster"}
+def _mref(qual, is_fit, params, frame):
+    """the ownership program of the function that ran: the regenerated one if there is one"""
+    from translator import own_c12
+    ms = _own_meta()
+    for k, m in enumerate(ms):
+        if m["name"] == qual:
+            bits = []
+            for src, node, _ in m["conds"]:
+                v = own_c12.eval_cond(node, params, frame) if node is not None else None
+                bits.append(bool(v))
+            return "(MGen %d%%nat %s)" % (k, clist([cbool(x) for x in bits]))
+    return "MFitShape" if is_fit else "MCopyFirst"
 
 
-def _disc(case):
-    name = case["est"]
-    frame = cbool(case["input"].get("container") == "frame")
-    if name.startswith("Hampel"):
-        return "(DHampel %s)" % frame
-    if name.startswith("Imputer-"):
-        return "(DImputer %s %s)" % (IMETHOD[name.split("-", 1)[1]], frame)
-    return "DCopyFirst"
+def _static_params(name):
+    """constructor parameters of the catalogue's Hampel / Imputer entries (for replay terms)"""
+    if name == "Hampel-5":
+        return {"window_length": 5, "n_sigma": 3, "k": 1.4826, "return_bool": False}
+    if name == "Hampel-bool":
+        return {"window_length": 4, "n_sigma": 2, "k": 1.4826, "return_bool": True}
+    m = name.split("-", 1)[1]
+    p = {"method": m, "random_state": None, "value": None, "forecaster": None,
+         "missing_values": None}
+    if m == "constant":
+        p["value"] = 7.5
+    if m == "forecaster":
+        p["forecaster"] = "<obj>"
+    if m == "sentinel":
+        p.update(method="mean", missing_values=-999.0)
+    return p
 
 
 def _cstore(bufs):
@@ -1225,9 +1301,13 @@ def _cpairs(ps):
 def coq_case(case, out):
     k = case["kind"]
     if k == "est":
-        calls = clist(["(%s, %s)" % (_cstore(b), _cstore(a)) for b, a in out["own"]])
+        frame = case["input"].get("container") == "frame"
+        calls = []
+        for i, ((b, a), q, ria) in enumerate(zip(out["own"], out["quals"], out["res_is_arg"])):
+            calls.append("(%s, (%s, %s), %s)" % (_mref(q, i == 0, out.get("params", {}), frame),
+                                                 _cstore(b), _cstore(a), cbool(ria)))
         pc = any(c["params_changed"] for c in out["calls"])
-        return "CEst %s %s %s" % (_disc(case), calls, cbool(pc))
+        return "CEst %s %s" % (clist(calls), cbool(pc))
     if k == "pool":
         return "CPool %s %s %s %s %s" % (cz(case["a"]), cz(case["b"]), czlist(case["tags"]),
                                         _cnatlist(out["finish_order"]), czlist(out["collected"]))
@@ -1244,9 +1324,17 @@ def coq_case(case, out):
 def coq_model_term(case):
     k = case["kind"]
     if k == "est":
-        d = _disc(case)
-        return ("(is_safe false (prog_of %s []), "
-                "fst (apply 1 (prog_of %s [1]) [[60; 2; 3]; []] 0))" % (d, d))
+        name = case["est"]
+        frame = case["input"].get("container") == "frame"
+        if name.startswith("Hampel"):
+            r = _mref("HampelFilter.transform", False, _static_params(name), frame)
+        elif name.startswith("Imputer"):
+            r = _mref("Imputer.transform", False, _static_params(name), frame)
+        else:
+            r = "MCopyFirst"
+        # (accepted by the analysis, id of the result when run on caller buffer 0 / estimator 1:
+        #  an id >= 2 is a new object)
+        return "(accepted %s, snd (apply 1 (prog_of %s) [[60; 2; 3]; []] 0))" % (r, r)
     if k == "pool":
         n = len(case["tags"])
         return ("parallel_map (pure_task (St := unit) (fun t => %s * t + %s)) %s tt %s"
